@@ -30,6 +30,51 @@ theorem rowSum_map {α : Type*} (l : List α) (g : α → P) (S : P → P → F)
     rowSum (l.map g) S a p = ∑ j : Fin l.length, S p (g l[j]) * a (g l[j]) := by
   unfold rowSum; rw [List.map_map, ← Fin.sum_univ_fun_getElem]; rfl
 
+theorem pair_eq_abstract
+    (pinsA pinsB keptA keptB : List P) (links : List (P × P)) (SA SB : P → P → F)
+    (hA : pinsA.Perm (keptA ++ links.map Prod.fst)) (hB : pinsB.Perm (links.map Prod.snd ++ keptB))
+    (a b : P → F) (eA : Eqn pinsA SA a b) (eB : Eqn pinsB SB a b)
+    (hl : ∀ l ∈ links, a l.1 = b l.2 ∧ a l.2 = b l.1) :
+    let kA : Fin keptA.length → P := fun i => keptA[i]
+    let kB : Fin keptB.length → P := fun i => keptB[i]
+    let cA : Fin links.length → P := fun i => links[i].1
+    let cB : Fin links.length → P := fun i => links[i].2
+    let A : SM F (Fin keptA.length) (Fin links.length) :=
+      { S21 := blk SA kA kA, S22 := blk SA kA cA, S11 := blk SA cA kA, S12 := blk SA cA cA }
+    let B : SM F (Fin links.length) (Fin keptB.length) :=
+      { S21 := blk SB cB cB, S22 := blk SB cB kB, S11 := blk SB kB cB, S12 := blk SB kB kB }
+    PairEq A B (a ∘ kA) (a ∘ kB) (b ∘ kA) (b ∘ kB) (b ∘ cA) (a ∘ cA) := by
+  intro kA kB cA cB A B
+  have memA : ∀ p, p ∈ keptA ++ links.map Prod.fst → p ∈ pinsA := fun p hp => hA.symm.subset hp
+  have memB : ∀ p, p ∈ links.map Prod.snd ++ keptB → p ∈ pinsB := fun p hp => hB.symm.subset hp
+  -- component equation of A in block form, at any pin p of A
+  have rowA : ∀ p ∈ pinsA, b p = (∑ j, SA p (kA j) * a (kA j)) + ∑ j, SA p (cA j) * a (cA j) := by
+    intro p hp
+    rw [eA p hp, rowSum_perm hA, rowSum_append, rowSum_get, rowSum_map]
+  have rowB : ∀ p ∈ pinsB, b p = (∑ j, SB p (cB j) * a (cB j)) + ∑ j, SB p (kB j) * a (kB j) := by
+    intro p hp
+    rw [eB p hp, rowSum_perm hB, rowSum_append, rowSum_map, rowSum_get]
+  have lk : ∀ i : Fin links.length, a (cA i) = b (cB i) ∧ a (cB i) = b (cA i) := fun i =>
+    hl links[i] (List.getElem_mem _)
+  -- g := waves entering A at its connected pins; f := waves leaving A there
+  refine ⟨?_, ?_, ?_, ?_⟩
+  · funext i
+    have := rowA (kA i) (memA _ (List.mem_append_left _ (List.getElem_mem _)))
+    simpa [A, blk, Matrix.mulVec, dotProduct] using this
+  · funext i
+    have := rowA (cA i) (memA _ (List.mem_append_right _ (List.mem_map.2 ⟨links[i], List.getElem_mem _, rfl⟩)))
+    simpa [A, blk, Matrix.mulVec, dotProduct] using this
+  · funext i
+    have := rowB (cB i) (memB _ (List.mem_append_left _ (List.mem_map.2 ⟨links[i], List.getElem_mem _, rfl⟩)))
+    simp only [Function.comp, (lk i).1]
+    rw [this]
+    simp [B, blk, Matrix.mulVec, dotProduct, Function.comp, fun j => (lk j).2]
+  · funext i
+    have := rowB (kB i) (memB _ (List.mem_append_right _ (List.getElem_mem _)))
+    rw [Function.comp, this]
+    simp [B, blk, Matrix.mulVec, dotProduct, Function.comp, fun j => (lk j).2]
+
+/-- the join of two parts along their links is sound for every solution of the two parts' equations -/
 theorem join_sound_abstract
     (pinsA pinsB keptA keptB : List P) (links : List (P × P)) (SA SB : P → P → F)
     (hA : pinsA.Perm (keptA ++ links.map Prod.fst)) (hB : pinsB.Perm (links.map Prod.snd ++ keptB))
@@ -47,32 +92,5 @@ theorem join_sound_abstract
     (b ∘ kA = (A.add B).S21 *ᵥ (a ∘ kA) + (A.add B).S22 *ᵥ (a ∘ kB)) ∧
     (b ∘ kB = (A.add B).S11 *ᵥ (a ∘ kA) + (A.add B).S12 *ᵥ (a ∘ kB)) := by
   intro kA kB cA cB A B hu
-  have memA : ∀ p, p ∈ keptA ++ links.map Prod.fst → p ∈ pinsA := fun p hp => hA.symm.subset hp
-  have memB : ∀ p, p ∈ links.map Prod.snd ++ keptB → p ∈ pinsB := fun p hp => hB.symm.subset hp
-  -- component equation of A in block form, at any pin p of A
-  have rowA : ∀ p ∈ pinsA, b p = (∑ j, SA p (kA j) * a (kA j)) + ∑ j, SA p (cA j) * a (cA j) := by
-    intro p hp
-    rw [eA p hp, rowSum_perm hA, rowSum_append, rowSum_get, rowSum_map]
-  have rowB : ∀ p ∈ pinsB, b p = (∑ j, SB p (cB j) * a (cB j)) + ∑ j, SB p (kB j) * a (kB j) := by
-    intro p hp
-    rw [eB p hp, rowSum_perm hB, rowSum_append, rowSum_map, rowSum_get]
-  have lk : ∀ i : Fin links.length, a (cA i) = b (cB i) ∧ a (cB i) = b (cA i) := fun i =>
-    hl links[i] (List.getElem_mem _)
-  -- g := waves entering A at its connected pins; f := waves leaving A there
-  apply star_sound A B hu (a ∘ kA) (a ∘ kB) (b ∘ kA) (b ∘ kB) (b ∘ cA) (a ∘ cA)
-  refine ⟨?_, ?_, ?_, ?_⟩
-  · funext i
-    have := rowA (kA i) (memA _ (List.mem_append_left _ (List.getElem_mem _)))
-    simpa [A, blk, Matrix.mulVec, dotProduct] using this
-  · funext i
-    have := rowA (cA i) (memA _ (List.mem_append_right _ (List.mem_map.2 ⟨links[i], List.getElem_mem _, rfl⟩)))
-    simpa [A, blk, Matrix.mulVec, dotProduct] using this
-  · funext i
-    have := rowB (cB i) (memB _ (List.mem_append_left _ (List.mem_map.2 ⟨links[i], List.getElem_mem _, rfl⟩)))
-    simp only [Function.comp, (lk i).1]
-    rw [this]
-    simp [B, blk, Matrix.mulVec, dotProduct, Function.comp, fun j => (lk j).2]
-  · funext i
-    have := rowB (kB i) (memB _ (List.mem_append_right _ (List.getElem_mem _)))
-    rw [Function.comp, this]
-    simp [B, blk, Matrix.mulVec, dotProduct, Function.comp, fun j => (lk j).2]
+  exact star_sound A B hu (a ∘ kA) (a ∘ kB) (b ∘ kA) (b ∘ kB) (b ∘ cA) (a ∘ cA)
+    (pair_eq_abstract pinsA pinsB keptA keptB links SA SB hA hB a b eA eB hl)
